@@ -319,8 +319,33 @@ pub(crate) mod alloc {
         /// Duplicate polynomials of the ProverKey (e.g. `q_L`, `q_R` and `q_C`)
         /// are only counted once.
         fn serialization_size(&self) -> usize {
-            // Fetch size in bytes of each Polynomial
-            let poly_size = self.arithmetic.q_m.0.len() * BlsScalar::SIZE;
+            // Reserve the size in bytes of the longest Polynomial for each of
+            // them. `q_m` alone is not a bound: it is the zero polynomial for a
+            // circuit without multiplication gates, while e.g. the sigma
+            // polynomials are dense, and an undersized buffer silently drops
+            // the tail of the encoding.
+            let poly_len = [
+                &self.arithmetic.q_m.0,
+                &self.arithmetic.q_l.0,
+                &self.arithmetic.q_r.0,
+                &self.arithmetic.q_o.0,
+                &self.arithmetic.q_f.0,
+                &self.arithmetic.q_c.0,
+                &self.arithmetic.q_arith.0,
+                &self.logic.q_logic.0,
+                &self.range.q_range.0,
+                &self.fixed_base.q_fixed_group_add.0,
+                &self.variable_base.q_variable_group_add.0,
+                &self.permutation.s_sigma_1.0,
+                &self.permutation.s_sigma_2.0,
+                &self.permutation.s_sigma_3.0,
+                &self.permutation.s_sigma_4.0,
+            ]
+            .iter()
+            .map(|poly| poly.len())
+            .max()
+            .unwrap_or(0);
+            let poly_size = poly_len * BlsScalar::SIZE;
             // Fetch size in bytes of each Evaluations
             let eval_size = self.arithmetic.q_m.1.evals.len() * BlsScalar::SIZE
                 + EvaluationDomain::SIZE;
